@@ -37,7 +37,8 @@ func (b bareItem) item() ap.Item {
 			Name:              ap.NaturalLanguageValues{{Ref: "en", Value: ap.Content("J. Doe")}},
 			Summary:           ap.NaturalLanguageValues{{Ref: ap.NilLangRef, Value: ap.Content("the same words")}},
 			Icon:              ap.IRI("https://example.com/icon.png"), URL: ap.IRI("https://example.com/~jdoe"),
-			Endpoints: &ap.Endpoints{SharedInbox: ap.IRI("https://example.com/inbox")},
+			Endpoints: &ap.Endpoints{SharedInbox: ap.IRI("https://example.com/inbox"), OauthAuthorizationEndpoint: ap.IRI("https://example.com/oauth/authorize"),
+				OauthTokenEndpoint: ap.IRI("https://example.com/oauth/token"), UploadMedia: ap.IRI("https://example.com/upload")},
 			PublicKey: ap.PublicKey{PublicKeyPem: "-----BEGIN PUBLIC KEY-----"}}
 	case "rich-object":
 		// a post and its repost elsewhere: objects that agree in everything but their id
